@@ -18,7 +18,18 @@
    One call of [wstep] = one I/O call of the Python (open, a collector, write, close, rename/replace, exists,
    remove) together with the silent code up to the next one; the file system after [n] steps is what a reader,
    or a crash, sees at that cut point.  Data written through the handle sits in [w_buf] until close when the
-   handle is buffered (what io.BufferedWriter does for small data) and goes to disk at once otherwise.  *)
+   handle is buffered (what io.BufferedWriter does for small data) and goes to disk at once otherwise.
+
+   SHORT writes.  write(2) may accept only a prefix of what it is given (disk nearly full, quota, RLIMIT_FSIZE) and
+   report the count instead of failing.  [w_short] lists, per submission index j, how many bytes submission j gets
+   accepted.  The handle of `open(tmppath, 'wb')` is an io.BufferedWriter: it submits the remainder again
+   ([w_retry] = true), which either goes through or raises (a [w_plan] fault at the next index).  A raw handle
+   (buffering=0) whose write() result is ignored drops the remainder ([w_retry] = false).
+
+   PATHS.  The file system below is ONE directory: the one the target lives in.  [base_of] / [dir_of] split a
+   path as spelled by the caller ('m.prom', './m.prom', '../d/m.prom', '/a/b./m.prom') at its last '/';
+   the temporary path is the spelled path plus a suffix without '/', so it names a file of the same directory
+   (proofs: tmp_same_directory), and the machine works on base names.  *)
 From V Require Import lib.PyBase.
 Open Scope N_scope.
 
@@ -76,10 +87,21 @@ Record wcfg := {
   w_colls : list coutcome;           (* the registry, in collection order *)
   w_split : list nat;                (* sizes of all write calls but the last; [] = the source's single write *)
   w_plan : list (site * fault);      (* injected I/O faults *)
+  w_short : list (nat * nat);        (* short writes: submission index j -> bytes accepted (only if fewer than given) *)
+  w_retry : bool;                    (* the handle submits the rest again after a short write (io.BufferedWriter) *)
   w_catch_base : bool                (* true: `except BaseException` (repaired); false: `except Exception` (pinned) *)
 }.
 
 Definition DOT : N := 46.
+Definition SLASH : N := 47.
+(* the path as spelled by the caller, split at its last '/' *)
+Fixpoint has_slash (p : str) : bool :=
+  match p with [] => false | x :: r => (x =? SLASH) || has_slash r end.
+Fixpoint base_of (p : str) : str :=
+  match p with [] => [] | x :: r => if has_slash p then base_of r else p end.
+Fixpoint dir_of (p : str) : str :=
+  match p with [] => [] | x :: r => if has_slash p then x :: dir_of r else [] end.
+
 Definition tmp_name (path : str) (pid tid : N) : str := path ++ DOT :: dec_of_N pid ++ DOT :: dec_of_N tid.
 Definition w_tmp (c : wcfg) : str := tmp_name (w_path c) (w_pid c) (w_tid c).
 
@@ -129,6 +151,21 @@ Definition os_move (nt : bool) (call : syscall) (f : fs) (src dst : str) : optio
       end
   end.
 
+Fixpoint short_find (p : list (nat * nat)) (j : nat) : option nat :=
+  match p with
+  | [] => None
+  | (j', n) :: r => if Nat.eqb j j' then Some n else short_find r j
+  end.
+(* submission j of chunk ch is cut short to n bytes: only when that is really fewer than what was given *)
+Definition short_of (c : wcfg) (j : nat) (ch : bytes) : option nat :=
+  match short_find (w_short c) j with
+  | Some n => if Nat.ltb n (length ch) then Some n else None
+  | None => None
+  end.
+(* short-write entries that can still fire at or after submission j *)
+Definition shorts_from (p : list (nat * nat)) (j : nat) : nat :=
+  length (filter (fun e => Nat.leb j (fst e)) p).
+
 Definition accept (c : wcfg) (s : wstate) (f : fs) (b : bytes) : option bytes * fs :=
   if w_buffered c then (option_map (fun x => x ++ b) (w_buf s), f)
   else (w_buf s, fs_append f (w_tmp c) b).
@@ -148,7 +185,12 @@ Definition do_write (c : wcfg) (s : wstate) (f : fs) (chunks : list bytes) (j : 
       match plan_find (w_plan c) (SWrite j) with
       | Some (k, n) => let '(b', f') := accept c s f (firstn n ch) in
                        ({| w_pc := PClose (Some (SWrite j, k)); w_buf := b' |}, f')
-      | None => let '(b', f') := accept c s f ch in ({| w_pc := PWrite rest (S j); w_buf := b' |}, f')
+      | None =>
+          match short_of c j ch with
+          | Some n => let '(b', f') := accept c s f (firstn n ch) in
+                      ({| w_pc := PWrite (if w_retry c then skipn n ch :: rest else rest) (S j); w_buf := b' |}, f')
+          | None => let '(b', f') := accept c s f ch in ({| w_pc := PWrite rest (S j); w_buf := b' |}, f')
+          end
       end
   end.
 
@@ -202,7 +244,7 @@ Fixpoint wsteps (c : wcfg) (n : nat) (s : wstate) (f : fs) : wstate * fs :=
   end.
 
 (* enough steps for any call to finish *)
-Definition wbound (c : wcfg) : nat := 7 + length (w_colls c) + length (w_split c).
+Definition wbound (c : wcfg) : nat := 7 + length (w_colls c) + length (w_split c) + length (w_short c).
 Definition wfinal (c : wcfg) (f : fs) : wstate * fs := wsteps c (wbound c) winit f.
 Definition outcome (s : wstate) : option (option err) := match w_pc s with PDone r => Some r | _ => None end.
 
@@ -236,7 +278,7 @@ Fixpoint tail_sched (i : nat) (ws : sys) : list nat :=
   | [] => []
   | (c, _) :: r => repeat i (wbound c) ++ tail_sched (S i) r
   end.
-Definition c18_run (path : str) (cs : list wcfg) (f : fs) (sched : list nat)
+Definition c18_run_base (path : str) (cs : list wcfg) (f : fs) (sched : list nat)
   : list (list str * option bytes) * (list (option (option err)) * fs) :=
   let ws := sinit cs in
   let sc := sched ++ tail_sched 0 ws in
@@ -245,7 +287,8 @@ Definition c18_run (path : str) (cs : list wcfg) (f : fs) (sched : list nat)
 
 (* ---- specification side: the big-step reading of the Python, "which error does the caller see" ----
    (no file system, no handler faults: the first error of open / the with-body / the rename, except that an
-   error raised by close() in the with-exit replaces the one in flight) *)
+   error raised by close() in the with-exit replaces the one in flight).  The reading knows nothing of short
+   writes (they shift the submission indices): the theorems that mention it assume [w_short c = []]. *)
 Definition resume_close (c : wcfg) (pend : option err) : option err :=
   match plan_find (w_plan c) SClose with
   | Some (k, _) => Some (SClose, k)
@@ -299,7 +342,18 @@ Definition fault_free (c : wcfg) : Prop :=
   plan_find (w_plan c) SOpen = None /\ plan_find (w_plan c) SClose = None /\ plan_find (w_plan c) SRename = None /\
   exists data, w_new c = Some data /\ forall j, (j <= length (w_split c))%nat -> plan_find (w_plan c) (SWrite j) = None.
 
+(* no data is dropped: short writes are retried, or there are none *)
+Definition keeps (c : wcfg) : Prop := w_retry c = true \/ w_short c = [].
+
 (* two file systems hold the same files *)
 Definition fs_same (f g : fs) : Prop := forall p, fs_find f p = fs_find g p.
+
+(* the driver's entry: the path as spelled by the caller; the directory observed is the one it names *)
+Definition at_base (c : wcfg) : wcfg :=
+  {| w_path := base_of (w_path c); w_pid := w_pid c; w_tid := w_tid c; w_nt := w_nt c; w_buffered := w_buffered c;
+     w_colls := w_colls c; w_split := w_split c; w_plan := w_plan c; w_short := w_short c; w_retry := w_retry c;
+     w_catch_base := w_catch_base c |}.
+Definition c18_run (path : str) (cs : list wcfg) (f : fs) (sched : list nat) :=
+  c18_run_base (base_of path) (map at_base cs) f sched.
 
 End TF.
